@@ -1153,6 +1153,62 @@ def run_input_representation(ck):
             ck.case(dict(kind="input-representation", detector=det.name, config=c, n=n), nontrivial=True, key=repr(("repr", det.name, c, xs[:20])))
 
 
+def run_callback_transparency_typed(ck):
+    """With a history callback attached a detector reports what it reports alone -- also when the values arrive as
+    narrow NumPy floats / ints (a conversion applied on one path only would show); and a deep copy taken in
+    mid-stream continues exactly like the original (the outputs are a function of configuration and values)."""
+    import copy as _copy
+
+    from frouros.callbacks import HistoryConceptDrift
+
+    rng = ck.rng
+    ck.rule("callback transparency for np.float32 / np.float16 / np.uint8 / np.int64 streams (0/1 and dyadic values): alone == with HistoryConceptDrift; deepcopy in mid-stream (after queues have wrapped) continues like the original")
+    for det in ALL:
+        if det.name == "KSWIN":
+            continue
+        c = default_cfg(det)
+        n = 260 if det.name != "BOCD" else 50
+        k = rng.randrange(n // 3, 2 * n // 3)
+        xs = [int(rng.random() < (0.3 if i < k else 0.7)) for i in range(n)]
+        for tname, ty in (("np.float32", np.float32), ("np.float16", np.float16), ("np.uint8", np.uint8), ("np.int64", np.int64)):
+            try:
+                d1, d2 = det.make(c), det.make(c, callbacks=[HistoryConceptDrift(name="h")])
+                t1, t2 = [], []
+                for v in xs:
+                    d1.update(value=ty(v))
+                    t1.append(canon(det.observe(d1)))
+                    d2.update(value=ty(v))
+                    t2.append(canon(det.observe(d2)))
+            except Exception as e:  # noqa: BLE001
+                ck.violation(dict(clause="raises", detector=det.name, error=type(e).__name__, scenario="typed-callback"), dict(detector=det.name, config=c, type=tname, error=repr(e)))
+                continue
+            ck.count("typed_callback_runs")
+            if t1 != t2:
+                step = next(i for i, (a, b_) in enumerate(zip(t1, t2)) if a != b_)
+                ck.violation(dict(clause="callback-transparency", detector=det.name, type=tname), dict(what="with a history callback attached the detector reports something else than alone on the same stream of NumPy scalars", detector=det.name, config=c, type=tname, step=step, alone=t1[step], with_callback=t2[step], stream_head=xs[:10], n=n))
+        # deep copy in mid-stream
+        try:
+            d0, d3 = det.make(c), det.make(c)
+            cut = rng.choice([100, 137])
+            if det.name == "BOCD":
+                cut = 20
+            t0, t3 = [], []
+            for i, v in enumerate(xs):
+                if i == cut:
+                    d3 = _copy.deepcopy(d3)
+                d0.update(value=v)
+                t0.append(canon(det.observe(d0)))
+                d3.update(value=v)
+                t3.append(canon(det.observe(d3)))
+        except Exception as e:  # noqa: BLE001
+            ck.violation(dict(clause="raises", detector=det.name, error=type(e).__name__, scenario="deepcopy"), dict(detector=det.name, config=c, error=repr(e)))
+            continue
+        ck.case(dict(kind="typed-callback+deepcopy", detector=det.name, config=c, n=n), nontrivial=True, key=repr(("tcb", det.name, c, xs[:20])))
+        if t0 != t3:
+            step = next(i for i, (a, b_) in enumerate(zip(t0, t3)) if a != b_)
+            ck.violation(dict(clause="function-of-values", detector=det.name, scenario="deepcopy"), dict(what="a deep copy of the detector taken in mid-stream continues differently from the original on the same values", detector=det.name, config=c, copied_at=cut, step=step, original=t0[step], copy=t3[step], n=n))
+
+
 def main(tier, seed):
     ck = Check("C16", tier, seed)
     ck.proof = check_props("C16")
@@ -1160,6 +1216,7 @@ def main(tier, seed):
     run(ck)
     run_function_of_values_since_reset(ck)
     run_input_representation(ck)
+    run_callback_transparency_typed(ck)
     return ck.finish()
 
 
